@@ -96,6 +96,12 @@ def run(tier):
             postep = (po_to + nparts - 1) // nparts
             for a in range(0, po_to, postep):
                 scripts.append((name, "scan", a, min(po_to, a + postep), "case %s-oscan%d-%d 600\nhdrscan file:%s %d %d preopt %d %d\nend\n" % (name, po, a, path, a, min(po_to, a + postep), po, pv)))
+        # the advanced open with the refused zck_read_header repeated after zck_clear_error on the same context (a caller that
+        # clears the error and tries again): the second call must not accept what the first refused.  Quick: every second file
+        rt_to = hl if (tier == "thorough" or fi % 2 == 1) else h.lead_size
+        rtstep = (rt_to + nparts - 1) // nparts
+        for a in range(0, rt_to, rtstep):
+            scripts.append((name, "scan", a, min(rt_to, a + rtstep), "case %s-tscan-%d 600\nhdrscan file:%s %d %d retry\nend\n" % (name, a, path, a, min(rt_to, a + rtstep))))
         # 2. insertions / deletions with the header length field adjusted (not re-sealed)
         pos = list(range(h.lead_size, hl)) if tier == "thorough" else sorted(rnd.sample(range(h.lead_size, hl), min(40, hl - h.lead_size)))
         for p in pos:
@@ -176,7 +182,7 @@ def run(tier):
                         sealed_vals.append(v)
                 pinargs = script.split("\n")[1].split(" pin ")[1] if " pin " in script else None
                 relead = script.split("\n")[1].endswith(" relead")
-                preopt = (" preopt " + script.split("\n")[1].split(" preopt ")[1]) if " preopt " in script else ""
+                preopt = (" preopt " + script.split("\n")[1].split(" preopt ")[1]) if " preopt " in script else (" retry" if script.split("\n")[1].endswith(" retry") else "")
                 trace.append({"op": "hdrmut", "file": name, "pos": p, "pinned": pinargs is not None, "relead": relead, "accepted": acc.get(p, []), "sealedVals": sealed_vals})
                 owner.append("case x 600\nhdrscan file:%s %d %d%s\nend\n" % (os.path.join(common.REPLAY, "C06-%s.zck" % name), p, p + 1, (" pin " + pinargs) if pinargs else (" relead" if relead else preopt)))
                 ck.case((name, p, pinargs is not None, relead, preopt))
